@@ -105,7 +105,7 @@ theorem total_sfIns2 {T} (l : List SfIn2) (ms : Mid) (R : List (Kind × Id)) (hc
   intro pre a post ms_pre hl hpre
   subst hl
   simp only [List.map_append, List.map_cons, List.append_assoc] at hF hn
-  obtain ⟨r, F, _, eS, ep, eW⟩ := loop_sfIns2 pre ms ms_pre _ hc hI
+  obtain ⟨r, F, _, eS, ep, eW, _⟩ := loop_sfIns2 pre ms ms_pre _ hc hI
     (fun sfi h => hs sfi (List.mem_append_left _ h)) (List.nodup_append.mp hn).1 hF hpre
   have hsa := hs a (List.mem_append_right _ List.mem_cons_self)
   have hsa' : SpendableSf T ms_pre a.parent := by
@@ -143,7 +143,7 @@ theorem total_ress2 {T} (l : List Resolution2) (ms : Mid) (R : List (Kind × Id)
   subst hl
   simp only [List.map_append, List.map_cons, List.flatMap_append, List.flatMap_cons, List.append_assoc, List.sum_append,
     List.sum_cons] at hF hn hp
-  obtain ⟨r, F, _, _, ep⟩ := loop_ress2 pre ms ms_pre _ hc hI
+  obtain ⟨r, F, _, _, ep, _⟩ := loop_ress2 pre ms ms_pre _ hc hI
     (fun x h => hs x (List.mem_append_left _ h)) (List.nodup_append.mp hn).1 hF hpre
   have hsa := (hs a (List.mem_append_right _ List.mem_cons_self)).1
   have hsa' : LiveFc2 T ms_pre a.parent := by
@@ -242,7 +242,7 @@ theorem total_sfIns1 {T} (supp : Supp1) (l : List SfIn1) (ms : Mid) (R : List (K
   intro pre a post ms_pre hl hpre
   subst hl
   simp only [List.map_append, List.map_cons, List.append_assoc] at hF hn
-  obtain ⟨r, F, _, eS, ep, eW⟩ := loop_sfIns1 supp pre ms ms_pre _ hc hI
+  obtain ⟨r, F, _, eS, ep, eW, _⟩ := loop_sfIns1 supp pre ms ms_pre _ hc hI
     (fun sfi h => hs sfi (List.mem_append_left _ h)) (List.nodup_append.mp hn).1 hF hpre
   have hsa := hs a (List.mem_append_right _ List.mem_cons_self)
   obtain ⟨e, he1, he2, he3⟩ := hsa.agree r.agree (by
@@ -268,13 +268,60 @@ theorem total_sfIns1 {T} (supp : Supp1) (l : List SfIn1) (ms : Mid) (R : List (K
   obtain ⟨c, hcl⟩ := claimPortion_total hle hv hp
   rw [hcl]; exact ⟨_, rfl⟩
 
+-- ------------------------------------------------------------------ list sums
+
+theorem sum_le_sum_map {α : Type} (l : List α) (f g : α → Nat) (h : ∀ x ∈ l, f x ≤ g x) :
+    (l.map f).sum ≤ (l.map g).sum := by
+  induction l with
+  | nil => simp
+  | cons a l ih =>
+    simp only [List.map_cons, List.sum_cons]
+    have := h a List.mem_cons_self
+    have := ih (fun x hx => h x (List.mem_cons_of_mem _ hx))
+    omega
+
+theorem sum_map_erase {α : Type} [DecidableEq α] (f : α → Nat) (M : List α) {a : α} (h : a ∈ M) :
+    (M.map f).sum = f a + ((M.erase a).map f).sum := by
+  induction M with
+  | nil => cases h
+  | cons b M ih =>
+    by_cases hab : b = a
+    · subst hab; simp
+    · rw [List.erase_cons_tail (by simpa using hab)]
+      simp only [List.map_cons, List.sum_cons]
+      rcases List.mem_cons.mp h with h' | h'
+      · exact absurd h'.symm hab
+      · rw [ih h']; omega
+
+/-- elements with pairwise distinct keys drawn from `M` weigh at most as much as `M` -/
+theorem sum_le_of_nodup_mem {α : Type} [DecidableEq α] (f : α → Nat) (key : α → Id) :
+    ∀ (l M : List α), (l.map key).Nodup → (∀ x ∈ l, x ∈ M) → (l.map f).sum ≤ (M.map f).sum := by
+  intro l
+  induction l with
+  | nil => intro M _ _; simp
+  | cons a l ih =>
+    intro M hn hm
+    simp only [List.map_cons, List.nodup_cons] at hn
+    have ha := hm a List.mem_cons_self
+    rw [sum_map_erase f M ha]
+    simp only [List.map_cons, List.sum_cons]
+    have := ih (M.erase a) hn.2 (fun x hx => by
+      have hxM := hm x (List.mem_cons_of_mem _ hx)
+      have hne : x ≠ a := fun he => hn.1 (he ▸ List.mem_map_of_mem hx)
+      exact (List.mem_erase_of_ne hne).mpr hxM)
+    omega
+
+/-- total value locked in the v2 contracts of a ledger -/
+def fc2Sum (L : Ledger) : Nat := (L.fc2.map (·.fc.val)).sum
+
 -- ------------------------------------------------------------------ whole transactions
 
 /-- after validation, `applyV2Transaction` returns (all of its errors are Go panics) -/
 theorem v2txn_total {T} {ms : Mid} {t : Txn2} {mw : Nat} {R : List (Kind × Id)}
     (hc : Ctx T ms.base) (hfix : ms.base.child ≥ ms.base.P.ephemeralFix) (hI : Inv T ms)
     (hF : Fresh T ms (t.created ++ R))
-    (hcs : CsOk ms) (hS : sfTot ms ≤ 10000) (hpool : ms.pool + t.taxes < curLimit)
+    (hcs : CsOk ms) (hS : sfTot ms ≤ 10000)
+    (hroom : ms.pool + scW (wMat ms.base.child) ms + fc2Sum ms.base < curLimit)
     (hfcv : ∀ x ∈ t.fcs, x.2.1.val < curLimit)
     (hrnv : ∀ r ∈ t.ress, ∀ rn, r.res = .renewal rn → rn.newContract.val < curLimit)
     (hv : validateV2Transaction ms t mw = .ok ()) :
@@ -293,16 +340,52 @@ theorem v2txn_total {T} {ms : Mid} {t : Txn2} {mw : Nat} {R : List (Kind × Id)}
   -- 1. siacoin inputs
   obtain ⟨ms1, a1⟩ : ∃ m, t.scIns.foldlM stepScIn2 ms = .ok m :=
     foldlM_total_pure (fun (s : Mid) (sci : ScIn2) => s.spendSc sci.parent) _ _
-  obtain ⟨r1, e1P, e1S, e1p⟩ := loop_scIns2 t.scIns ms ms1 hc hI pSc hscn a1
+  obtain ⟨r1, e1P, e1S, e1p, e1W⟩ := loop_scIns2 t.scIns ms ms1 hc hI pSc hscn a1
   have F1 := hF.agree r1.agree (by
     intro q hq hm
     obtain ⟨sci, hs, he⟩ := List.mem_map.mp hm
     exact (pSc sci hs).not_fresh hF q hq he.symm)
   have hc1 : Ctx T ms1.base := by rw [r1.base]; exact hc
+  -- the tax of the transaction is funded by its mature inputs and by rollovers out of base contracts
+  have hpool : ms.pool + t.taxes < curLimit := by
+    have h1 := e1W (wMat ms.base.child) (wMat_congr _)
+    have z1 : (t.scIns.map (fun i => wMat ms.base.child i.parent)).sum = (t.scIns.map (·.parent.value)).sum := by
+      congr 1; apply List.map_congr_left; intro sci hm
+      unfold wMat; rw [if_pos (hsc sci hm).2.1]
+    have hroll : (t.ress.map resRoll).sum ≤ fc2Sum ms.base := by
+      have a1 : (t.ress.map resRoll).sum ≤ (t.ress.map (fun r => r.parent.fc.val)).sum := by
+        apply sum_le_sum_map; intro r hr
+        have := (hress r hr).2.2.2
+        unfold resRoll
+        cases hres : r.res with
+        | renewal rn => rw [hres] at this; simp only [] at this ⊢; have := this.1; unfold Cur at *; omega
+        | proof a b c d => exact Nat.zero_le _
+        | expiration => exact Nat.zero_le _
+      have a2 := sum_le_of_nodup_mem (fun e : Fc2Elem => e.fc.val) (·.id) (t.ress.map (·.parent)) ms.base.fc2
+        (by rw [List.map_map]; exact hresn) (by
+          intro x hx
+          obtain ⟨r, hr, rfl⟩ := List.mem_map.mp hx
+          exact (pRes r hr).1.2.1)
+      rw [List.map_map] at a2
+      unfold fc2Sum
+      exact Nat.le_trans a1 a2
+    have htax : t.taxes ≤ (t.fcs.map (fun x => x.2.1.val + x.2.1.val / 25)).sum + (t.ress.map resCost).sum := by
+      unfold Txn2.taxes
+      have b1 := sum_le_sum_map t.fcs (fun x => x.2.1.val / 25) (fun x => x.2.1.val + x.2.1.val / 25) (fun x _ => by omega)
+      have b2 := sum_le_sum_map t.ress resTax resCost (fun r _ => by
+        unfold resTax resCost
+        cases r.res with
+        | renewal rn => simp only []; omega
+        | proof a b c d => exact Nat.le_refl _
+        | expiration => exact Nat.le_refl _)
+      omega
+    rw [z1] at h1
+    clear hv hv1 hv2 hv3 a1 hF F1 hsfbal
+    unfold Cur at *; omega
   -- 2. siacoin outputs
   obtain ⟨ms2, a2⟩ : ∃ m, t.scOuts.foldlM stepScOut ms1 = .ok m :=
     foldlM_total_pure (fun (s : Mid) (x : Id × ScOut) => s.createSc x.1 x.2) _ _
-  obtain ⟨r2, F2, e2P, e2S, e2p⟩ := loop_scOuts t.scOuts ms1 ms2 _ hc1 r1.inv F1 a2
+  obtain ⟨r2, F2, e2P, e2S, e2p, e2W⟩ := loop_scOuts t.scOuts ms1 ms2 _ hc1 r1.inv F1 a2
   have hc2 : Ctx T ms2.base := by rw [r2.base]; exact hc1
   -- membership of created ids in the fresh list
   have inF_scOut : ∀ x, x ∈ t.scOuts.map (·.1) → ∃ q ∈ (t.scOuts.map (fun x => (Kind.sc, x.1)) ++ (t.sfIns.map (fun i => (Kind.sc, i.claimId)) ++
@@ -342,7 +425,7 @@ theorem v2txn_total {T} {ms : Mid} {t : Txn2} {mw : Nat} {R : List (Kind × Id)}
   obtain ⟨q2, c2⟩ := Psi_shift s12 0 (by rw [hp2]; rfl) hcs
   have hpl : ms.pool < curLimit := by unfold Cur at *; omega
   obtain ⟨ms3, a3⟩ := total_sfIns2 t.sfIns ms2 _ hc2 r2.inv pSf2 hsfn F2 c2 (by rw [e2S, e1S]; exact hS) (by rw [hp2]; exact hpl)
-  obtain ⟨r3, F3, e3P, e3S, e3p, e3W⟩ := loop_sfIns2 t.sfIns ms2 ms3 _ hc2 r2.inv pSf2 hsfn F2 a3
+  obtain ⟨r3, F3, e3P, e3S, e3p, e3W, e3Wc⟩ := loop_sfIns2 t.sfIns ms2 ms3 _ hc2 r2.inv pSf2 hsfn F2 a3
   have hc3 : Ctx T ms3.base := by rw [r3.base]; exact hc2
   -- 4. siafund outputs
   obtain ⟨ms4, a4⟩ : ∃ m, t.sfOuts.foldlM stepSfOut ms3 = .ok m :=
@@ -402,7 +485,7 @@ theorem v1txn_total {T} {ms : Mid} {t : Txn1} {pid : Id} {mw : Nat} {R : List (K
     (hc : Ctx T ms.base) (hI : Inv T ms) (hsupp : SuppOk ms.base t.supp)
     (hF : Fresh T ms (t.created ++ R))
     (hlen : ∀ sp ∈ t.proofs, ∀ e, ms.fc1Element t.supp sp.parent = some e → e.fc.valid.length ≤ sp.outIds.length)
-    (hcs : CsOk ms) (hS : sfTot ms ≤ 10000) (hpool : ms.pool + t.taxes ms.base < curLimit)
+    (hcs : CsOk ms) (hS : sfTot ms ≤ 10000) (hroom : ms.pool + scW (wMat ms.base.child) ms < curLimit)
     (hv : validateTransaction ms t pid mw = .ok ()) :
     ∃ ms', applyTransaction ms t = .ok ms' := by
   obtain ⟨hv1, hv2, hv3, hv4⟩ := validateTransaction_ok hv
@@ -416,7 +499,7 @@ theorem v1txn_total {T} {ms : Mid} {t : Txn1} {pid : Id} {mw : Nat} {R : List (K
   obtain ⟨hndsc, hndsf, _⟩ := hnd12
   -- preconditions relative to the state before the transaction
   have pSc : ∀ sci ∈ t.scIns, PendSc1 T ms t.supp sci := fun sci h => by
-    obtain ⟨h1, p, hp⟩ := hsc sci h; exact pendSc1_of hc hI hsupp h1 hp
+    obtain ⟨h1, p, hp, _⟩ := hsc sci h; exact pendSc1_of hc hI hsupp h1 hp
   have pSf : ∀ sfi ∈ t.sfIns, PendSf1 T ms t.supp sfi := fun sfi h => by
     obtain ⟨h1, p, hp⟩ := hsf sfi h; exact pendSf1_of hc hI hsupp h1 hp
   have pRev : ∀ r ∈ t.revs, PendRev1 T ms t.supp r := fun r h => by
@@ -440,17 +523,33 @@ theorem v1txn_total {T} {ms : Mid} {t : Txn1} {pid : Id} {mw : Nat} {R : List (K
   simp only [List.append_assoc] at hF
   -- 1. siacoin inputs
   obtain ⟨ms1, a1⟩ := total_scIns1 t.supp t.scIns ms hc hI pSc hndsc
-  obtain ⟨r1, e1P, e1S, e1p⟩ := loop_scIns1 t.supp t.scIns ms ms1 hc hI pSc hndsc a1
+  obtain ⟨r1, e1P, e1S, e1p, e1W⟩ := loop_scIns1 t.supp t.scIns ms ms1 hc hI pSc hndsc a1
   have F1 := hF.agree r1.agree (by
     intro q hq hm
     obtain ⟨sci, hs, he⟩ := List.mem_map.mp hm
     obtain ⟨e, _, h2, h3⟩ := pSc sci hs
     exact h3.not_fresh hF q hq (he.symm.trans h2.symm))
   have hc1 : Ctx T ms1.base := by rw [r1.base]; exact hc
+  -- the tax of the transaction is funded by its mature inputs
+  have hpool : ms.pool + t.taxes ms.base < curLimit := by
+    have h1 := e1W (wMat ms.base.child) (wMat_congr _)
+    have z1 : (t.scIns.map (scInW ms t.supp (wMat ms.base.child))).sum = (t.scIns.map (scInVal ms t.supp)).sum := by
+      congr 1; apply List.map_congr_left; intro sci hm
+      obtain ⟨_, p, hp, hmat⟩ := hsc sci hm
+      unfold scInW scInVal; rw [hp]; simp only []
+      unfold wMat; rw [if_pos hmat]
+    have htax : t.taxes ms.base ≤ t.payouts := by
+      unfold Txn1.taxes Txn1.payouts
+      apply sum_le_sum_map; intro x hx
+      have := (hfcs x hx).2
+      unfold Cur at *; omega
+    rw [z1] at h1
+    clear hv hv1 hv2 hv3 hv4 a1 hF F1 hsfbal
+    unfold Cur at *; omega
   -- 2. siacoin outputs
   obtain ⟨ms2, a2⟩ : ∃ m, t.scOuts.foldlM stepScOut ms1 = .ok m :=
     foldlM_total_pure (fun (s : Mid) (x : Id × ScOut) => s.createSc x.1 x.2) _ _
-  obtain ⟨r2, F2, e2P, e2S, e2p⟩ := loop_scOuts t.scOuts ms1 ms2 _ hc1 r1.inv F1 a2
+  obtain ⟨r2, F2, e2P, e2S, e2p, e2W⟩ := loop_scOuts t.scOuts ms1 ms2 _ hc1 r1.inv F1 a2
   have hc2 : Ctx T ms2.base := by rw [r2.base]; exact hc1
   have inF_scOut : ∀ x, x ∈ t.scOuts.map (·.1) → ∃ q ∈ (t.scOuts.map (fun x => (Kind.sc, x.1)) ++ (t.sfIns.map (fun i => (Kind.sc, i.claimId)) ++
       (t.sfOuts.map (fun x => (Kind.sf, x.1)) ++ (t.fcs.map (fun x => (Kind.fc1, x.1)) ++ (t.proofs.flatMap Proof1.created ++ R))))), q.2 = x := by
@@ -489,7 +588,7 @@ theorem v1txn_total {T} {ms : Mid} {t : Txn1} {pid : Id} {mw : Nat} {R : List (K
   obtain ⟨q2, c2⟩ := Psi_shift s12 0 (by rw [hp2]; rfl) hcs
   have hpl : ms.pool < curLimit := by unfold Cur at *; omega
   obtain ⟨ms3, a3⟩ := total_sfIns1 t.supp t.sfIns ms2 _ hc2 r2.inv pSf2 hndsf F2 c2 (by rw [e2S, e1S]; exact hS) (by rw [hp2]; exact hpl)
-  obtain ⟨r3, F3, e3P, e3S, e3p, e3W⟩ := loop_sfIns1 t.supp t.sfIns ms2 ms3 _ hc2 r2.inv pSf2 hndsf F2 a3
+  obtain ⟨r3, F3, e3P, e3S, e3p, e3W, e3Wc⟩ := loop_sfIns1 t.supp t.sfIns ms2 ms3 _ hc2 r2.inv pSf2 hndsf F2 a3
   have hc3 : Ctx T ms3.base := by rw [r3.base]; exact hc2
   -- 4. siafund outputs
   obtain ⟨ms4, a4⟩ : ∃ m, t.sfOuts.foldlM stepSfOut ms3 = .ok m :=
